@@ -488,8 +488,7 @@ class C12(Property):
                   "[textarea: minus one leading LF, KF-C12-f]; checkbox/radio with a literal (scalar, Boolean, Array-of-String binds), "
                   "Boolean checkbox without literal, <option value=lit> selected iff match (any bind kind) and what it posts inside a "
                   "named select; label for = control id for <input> controls.  EXCLUDED BY FINDINGS: password/file/image "
-                  "(KF-C12-a, refuted by C12_full_fails), options without value= (KF-C12-b/e), mixed-case type (KF-C12-c), "
-                  "JoinedString binds (KF-C12-d).  ORACLE/CORRESPONDENCE ONLY: that the <select> itself carries the flat name, "
+                  "(KF-C12-a, refuted by C12_full_fails), options without value= (KF-C12-b/e), JoinedString binds (KF-C12-d).  ORACLE/CORRESPONDENCE ONLY: that the <select> itself carries the flat name, "
                   "label for = id for textarea/button controls, MultiValue binds, the whole-form round trip through "
                   "from_flat/flatten (C01's functions)")
     technique = ("symbolic evaluation of the transform pipeline under Enabled/Disabled contexts + frame lemmas; browser "
@@ -570,7 +569,7 @@ class C12(Property):
                                rd([1], "option", [["value", S("")], ["contents", S("none")]], "option", within=0, lit=""),
                                rd([1], "option", [["value", S("L")], ["contents", S("large")]], "option", within=0, lit="L")],
                          extra_fields=[{"t": "array", "flavour": "array", "name": "sizes", "strip": False, "members": ["", "L"]}]))
-        # open KF-C12-c: type compared case-sensitively
+        # fixed: property=C12 feded98 — type keywords are matched case-insensitively (was KF-C12-c)
         cases.append(one("hello", [rd([0], "input", [["type", S("CHECKBOX")], ["value", S("hello")]], "check", lit="hello"),
                                    rd([0], "label", [["value", S("hello")]], "label", pair=0)],
                          settings=[["auto_domid", B(True)], ["auto_for", B(True)]]))
@@ -643,7 +642,7 @@ class C12(Property):
             elif role in ("check", "option"):
                 lit = r.get("lit")
                 import flatland
-                is_checkbox = dict((k, v.get("v")) for k, v in r["kwargs"]).get("type") == "checkbox"
+                is_checkbox = str(dict((k, v.get("v")) for k, v in r["kwargs"]).get("type")).lower() == "checkbox"
                 if lit is None and isinstance(el, flatland.Boolean) and is_checkbox:
                     lit = el.true          # documented: the missing value= is added from Boolean.true
                 kwd = dict((k, v) for k, v in r["kwargs"])
@@ -692,7 +691,7 @@ class C12(Property):
         return fails
 
     def classify(self, case, failure):
-        for fn in (self._classify_a, self._classify_option_text, self._classify_c, self._classify_d, self._classify_f):
+        for fn in (self._classify_a, self._classify_option_text, self._classify_d, self._classify_f):
             fid = fn(case, failure)
             if fid:
                 return fid
@@ -728,45 +727,6 @@ class C12(Property):
     def _type_of(r):
         t = dict((k, v) for k, v in r["kwargs"]).get("type")
         return t.get("v") if t and t.get("t") in ("s", "m") else None
-
-    def _classify_c(self, case, failure):
-        """KF-C12-c: `type` is compared case-sensitively: <input type="CHECKBOX"/"Radio"> is a check control for a
-        browser but a text-like input for flatland (never checked, no id suffix).  Class: input whose type is not
-        lower case and lower-cases to checkbox/radio; the control posts nothing although its literal matches, or the
-        paired label's for= is the control's id plus the sanitised literal."""
-        i = failure.get("render")
-        if not isinstance(i, int):
-            return None
-        r = case["renders"][i]
-        if failure.get("clause") == "checked-iff-matches":
-            ty = self._type_of(r)
-            if r["tag"] == "input" and ty and ty != ty.lower() and ty.lower() in ("checkbox", "radio") \
-                    and failure.get("observed") is None and failure.get("expected") == [failure.get("name"), failure.get("lit")]:
-                return "KF-C12-c"
-            return None
-        if failure.get("clause") == "label-targets-control" and isinstance(failure.get("pair"), int):
-            ctl = case["renders"][failure["pair"]]
-            ty = self._type_of(ctl)
-            if ctl["tag"] == "input" and ty and ty != ty.lower() and ty.lower() in ("checkbox", "radio"):
-                lit = dict((k, v) for k, v in r["kwargs"]).get("value", {}).get("v", "")
-                sfx = ID_INVALID.sub("", lit)
-                exp, obs = failure.get("expected"), failure.get("observed")
-                if exp is not None and obs is not None and sfx and obs == self._with_suffix(case, exp, sfx):
-                    return "KF-C12-c"
-        return None
-
-    @staticmethod
-    def _with_suffix(case, control_id, sfx):
-        """the id the control would have had with the literal's suffix, for the case's domid_format"""
-        fmt = "f_%s"
-        for k, v in case["settings"]:
-            if k == "domid_format":
-                fmt = v["v"]
-        head, _, tail = fmt.partition("%s")
-        if not control_id.startswith(head) or (tail and not control_id.endswith(tail)):
-            return None
-        raw = control_id[len(head): len(control_id) - len(tail) if tail else None]
-        return head + raw + "_" + sfx + tail
 
     def _bind_node(self, case, r):
         node = case["tree"]
